@@ -202,7 +202,9 @@ class KSem:
 # ------------------------------------------------------------------------------------------
 class Sched:
     def __init__(self, prefix=(), kinds=("P", "T", "K"), kill_code=-9, horizon=50_000,
-                 pipe_cap=65536, track_states=True, kill_filter=None, starve=None):
+                 pipe_cap=65536, track_states=True, kill_filter=None, starve=None,
+                 p_scope=None, t_scope=None, t_when=None, p_when=None, t_cur=None,
+                 zero_when=None):
         self.threads = []
         self.procs = {}
         self.pipes = []
@@ -216,6 +218,14 @@ class Sched:
         self.kill_code = kill_code
         self.kill_filter = kill_filter
         self.starve = starve      # scheduling policy: threads whose name starts with this run last
+        self.p_scope = p_scope    # if set, only threads with this name prefix are P alternatives
+        self.t_scope = t_scope    # if set, only timed waits of threads with this prefix may fire early
+        self.t_when = t_when      # if set, T alternatives only while a parent thread runs this function
+        self.p_when = p_when      # if set, P alternatives only while a parent thread runs this function
+        self.t_cur = t_cur        # if set, T alternatives only at decision points of this thread
+        # policy "timeouts are ~0 relative to this call": while a parent thread runs the named
+        # function every short timed wait counts as expired (all idle timers fire inside it)
+        self.zero_when = zero_when
         self.horizon = horizon
         self.pipe_cap = pipe_cap
         self.nchoice = 0
@@ -263,9 +273,14 @@ class Sched:
         return False
 
     def alternatives(self, me):
-        en = [t for t in self.threads if self.enabled(t)]
+        zero = self.zero_when is not None and self._parent_in(self.zero_when)
+        en = [t for t in self.threads if self.enabled(t)
+              or (zero and t.state == "blocked" and t.short and not t.killed)]
         st = self.starve
-        if st is None:
+        if zero and me is not None and me.state == "blocked" and not (me.pred is not None and me.pred()):
+            # an expired (zero) timed wait still yields the processor: others go first
+            en.sort(key=lambda t: (1 if t is me else 0, t.since, t.id))
+        elif st is None:
             en.sort(key=lambda t: (0 if t is me else 1, t.since, t.id))
         elif st.startswith("eager:"):
             # priority policy: the named thread runs whenever it is enabled
@@ -275,10 +290,18 @@ class Sched:
         else:
             en.sort(key=lambda t: (0 if t is me else 1, 1 if t.full.startswith(st) else 0,
                                    t.since, t.id))
+        if self.p_scope is not None and len(en) > 1:
+            en = en[:1] + [t for t in en[1:] if t.full.startswith(self.p_scope)]
+        if self.p_when is not None and len(en) > 1 and not self._parent_in(self.p_when):
+            en = en[:1]
         alts = [("P", t, "run:" + t.full) for t in en]
         if en:
-            if "T" in self.kinds:
+            if "T" in self.kinds and (self.t_cur is None or (me is not None
+                                                             and me.full.startswith(self.t_cur))) \
+                    and (self.t_when is None or self._parent_in(self.t_when)):
                 for t in self.threads:
+                    if self.t_scope is not None and not t.full.startswith(self.t_scope):
+                        continue
                     if (t.state == "blocked" and not t.killed and t.short
                             and t.deadline is not None and t.deadline > self.now
                             and not (t is me and t.pred is not None and t.pred())):
@@ -289,6 +312,18 @@ class Sched:
                         if self.kill_filter is None or self.kill_filter(self, p):
                             alts.append(("K", p, "kill:" + p.label))
         return alts
+
+    def _parent_in(self, funcname):
+        fr = sys._current_frames()
+        for t in self.threads:
+            if t.proc.pid != PARENT_PID or t.state == "done":
+                continue
+            f = fr.get(t.real.ident)
+            while f is not None:
+                if f.f_code.co_name == funcname and "/loky/" in f.f_code.co_filename:
+                    return True
+                f = f.f_back
+        return False
 
     def state_sig(self):
         th = tuple((t.state if not t.killed else "k", t.label) for t in self.threads)
